@@ -46,7 +46,7 @@ ASSUMPTIONS = [
     "history part: all ordered pairs (thorough: triples) of 16 generate_pafs calls whose grids collide in shape but not in coordinates, each history in a forked child, compared with a fresh-process result (module-level caches / scratch buffers keyed too coarsely)",
     "coordinates only from the alphabet {NaN,-4,0,1,2.5,3,N-2,N-1,N+3} per axis (dyadic, so 'cell lies on the segment' is decided exactly); no +-inf coordinates",
     "animals <= 2 (quick) / <= 3 (thorough), nodes <= 3, edge lists = oriented/ordered spanning trees of the node set (1 or 2 edges)",
-    "image sizes (H,W): quick (8,12); thorough (8,8),(8,12),(12,8) and for family A also (12,12) -- all multiples of the strides {1,2,4}; sigma in {0.5,1.5,4}; n_samples = 1 (generate_pafs reads instances[0] only)",
+    "image sizes (H,W): quick (8,12); thorough (8,8),(8,12),(12,8) and for family A also (12,12) -- all multiples of the strides {1,2,4} -- plus, for families A and C, the size (7,10) at strides 2 and 4 (not a multiple: the output may have floor or ceil(size/stride) cells per axis, every cell is judged at (col*stride,row*stride)); sigma in {0.5,1.5,4}; n_samples = 1 (generate_pafs reads instances[0] only)",
     "edge_inds passed as torch.Tensor(list) (float tensor (E,2)), which is how CustomDataset/pipelines call the code",
     "'inside the image' = node in [0,W-1]x[0,H-1]; 'wholly outside' = no node inside; float32 tolerance ATOL=1e-5 on weights/components, DELTA=1e-4 on reference distances",
     "quick runs (flatten, api) in {(True,fn),(False,fn),(True,dp)}; thorough the full 2x2 product",
@@ -144,7 +144,10 @@ def configs(tier, family):
         hws = [(8, 8), (12, 12), (8, 12), (12, 8)]
     else:
         hws = [(8, 8), (8, 12), (12, 8)]
-    return [(hw, s, sg) for hw in hws for s in STRIDES for sg in SIGMAS]
+    out = [(hw, s, sg) for hw in hws for s in STRIDES for sg in SIGMAS]
+    if family in ("A", "C"):  # a size that is NOT a multiple of the strides 2 and 4 (grid of floor or ceil(size/stride) cells)
+        out += [((7, 10), s, sg) for s in STRIDES if s > 1 for sg in (SIGMAS if tier != "quick" else SIGMAS[1:2])]
+    return out
 
 
 def variants(tier):
@@ -207,10 +210,12 @@ def last_grid(n, stride):
     return float(((n + stride - 1) // stride - 1) * stride)
 
 
-def edge_geometry(ps, pd, hw, stride):
-    """(u, dist, on_segment) for a valid edge on the (H/s, W/s) grid whose cell (i,j) sits at x=j*s, y=i*s."""
+def edge_geometry(ps, pd, hw, stride, dims=None):
+    """(u, dist, on_segment) for a valid edge on the (H/s, W/s) grid whose cell (i,j) sits at x=j*s, y=i*s.
+    dims: the grid dimensions of the output being judged (floor or ceil of size/stride for sizes that are not multiples)."""
     H, W = hw
-    gx, gy = np.meshgrid(np.arange(W // stride, dtype=np.float64) * stride, np.arange(H // stride, dtype=np.float64) * stride)
+    gh, gw = dims if dims is not None else (H // stride, W // stride)
+    gx, gy = np.meshgrid(np.arange(gw, dtype=np.float64) * stride, np.arange(gh, dtype=np.float64) * stride)
     dx, dy = pd[0] - ps[0], pd[1] - ps[1]
     L2 = dx * dx + dy * dy
     L = math.sqrt(L2)
@@ -249,7 +254,11 @@ def to_edge_major(out, n_edges, hw, stride, flatten):
     if not isinstance(out, torch.Tensor):
         return None, f"output is {type(out).__name__}, not a tensor"
     if tuple(out.shape) != want:
-        return None, f"shape {tuple(out.shape)} != {want}"
+        # a size that is not a multiple of the stride: "H/stride" is read as floor or ceil
+        h, w = -(-hw[0] // stride), -(-hw[1] // stride)
+        alt = (2 * n_edges, h, w) if flatten else (n_edges, 2, h, w)
+        if tuple(out.shape) != alt:
+            return None, f"shape {tuple(out.shape)} != {want}" + ("" if alt == want else f" or {alt}")
     a = out.detach().cpu().numpy().astype(np.float64)
     return a.reshape(n_edges, 2, h, w), None
 
@@ -281,7 +290,7 @@ def check_single(case, arr, geom=None, stats=None):
         key = (e, s, d)
         g = geom.get(key) if geom is not None else None
         if g is None:
-            g = edge_geometry(ps, pd, hw, stride)
+            g = edge_geometry(ps, pd, hw, stride, tuple(f.shape[-2:]))
             if geom is not None:
                 geom[key] = g
         (ux, uy), dist, on = g
